@@ -366,15 +366,59 @@ func c04PublishCopies(c *Check, P string, r *GCRoles) {
 		}
 		return false, nil
 	}
-	// optional local slice of copies (today's shape): every element store is such a copy, same index, full length
+	// the local slice of copies: either make(len(messages)) filled by index (today's shape) …
 	var local *ssa.MakeSlice
 	AllInstrs(Pub, func(in ssa.Instruction) {
 		if ms, ok := in.(*ssa.MakeSlice); ok && ms.Type().Underlying().String() == "[]"+tMessagePtr {
-			local = ms
+			if n, isC := IntConst(ms.Len); !isC || n != 0 {
+				local = ms
+			}
 		}
 	})
+	// … or an empty slice extended by append(copies, msg.Copy()) in a full range over the messages
+	builtByAppend := func(v ssa.Value) bool {
+		if _, isMake := firstOrigin(v).(*ssa.MakeSlice); isMake && len(Origins(v)) == 1 {
+			return false
+		}
+		okAll := true
+		nApp := 0
+		ok := sliceBuiltFrom(v, func(e ssa.Value) bool {
+			okC, idx := isCopyOfCallerMsg(e)
+			if !okC {
+				return false
+			}
+			nApp++
+			_ = idx
+			return true
+		})
+		if !ok || nApp == 0 {
+			return false
+		}
+		// every iteration of the range over messages appends (none skipped)
+		AllInstrs(Pub, func(in ssa.Instruction) {
+			call, isCall := in.(*ssa.Call)
+			if !isCall {
+				return
+			}
+			args, isApp := IsBuiltinCall(call, "append")
+			if !isApp || len(args) != 2 {
+				return
+			}
+			for _, e := range VariadicElems(args[1]) {
+				if okC, idx := isCopyOfCallerMsg(e); okC {
+					if inc, isIns := idx.(ssa.Instruction); isIns && ReachWithout(inc, inc, call) {
+						okAll = false
+					}
+				}
+			}
+		})
+		return okAll
+	}
 	isLocal := func(v ssa.Value) bool {
-		return local != nil && AllOrigins(v, func(o ssa.Value) bool { return o == ssa.Value(local) })
+		if local != nil && AllOrigins(v, func(o ssa.Value) bool { return o == ssa.Value(local) }) {
+			return true
+		}
+		return builtByAppend(v)
 	}
 	if local != nil {
 		args, ok := IsBuiltinCall(local.Len, "len")
@@ -386,7 +430,7 @@ func c04PublishCopies(c *Check, P string, r *GCRoles) {
 				return
 			}
 			ia, ok := st.Addr.(*ssa.IndexAddr)
-			if !ok || !isLocal(ia.X) {
+			if !ok || !AllOrigins(ia.X, func(o ssa.Value) bool { return o == ssa.Value(local) }) {
 				return
 			}
 			nst++
